@@ -48,6 +48,13 @@ def run():
         hists = hc.gen_behaviours(sc, "HeapGenWeak.cfg", num=n, depth=300, seed=chk.seed + 3)
         weak = [h for h in hists if any(a[0] == "Alloc" and a[2] in ("eph", "fin") for a in h)]
         a = hc.micro_campaign(chk, sc, build, weak[:4000], 12, 36, "weak")
+        # deterministic family: ephemeron chains in every allocation order, with and without a second segment
+        chains = hc.chain_scripts()
+        if not chk.thorough:
+            chk.rng.shuffle(chains)
+            chains = chains[:120]
+        a += hc.micro_campaign(chk, sc, build, chains, 8, 64, "chain", batch=60)
+        chk.cov["ephemeron_chain_scripts"] = len(chains)
         chk.cov["micro_behaviours"] = a
         chk.cov["micro_behaviours_with_broken_or_finalized"] = sum(
             1 for h in weak if any(x[0] == "ObserveFin" for x in h))
